@@ -163,6 +163,28 @@ def run(chk: core.Check):
         cases += acases
         rng.shuffle(cases)
         chunks = core.chunked(cases, 64)
+    # histories that ACQUIRE anchors: alias_nodes, then set_value, on one reused Processor (c03_alias.py, Model/Alias.lean)
+    from harness.props import c03_alias
+    alias_chunks = []
+    if chk.replay_in:
+        if chunks[0][0].get("alias"):
+            alias_chunks, chunks = chunks, []
+    else:
+        asteps = c03_alias.gen_alias_steps(random.Random(chk.seed * 31 + 7), 3000 if chk.tier == "quick" else 40000)
+        chk.extra_cov["alias_then_set_histories"] = len(asteps)
+        alias_chunks = core.chunked(asteps, 48)
+    for st, viol, disag, keys in core.pmap(c03_alias.alias_chunk, alias_chunks):
+        chk.evaluations += st.pop("n")
+        chk.out_of_model += st.pop("oom")
+        for k, v in st.items():
+            chk.count(k, v)
+        for k in keys:
+            chk.nontrivial.add("alias:" + k)
+        for sig, w, case in viol:
+            chk.violation(sig, w, case)
+        for sig, w, case in disag:
+            chk.disagreements_checked += 1
+            chk.disagreement(sig, w, case)
     results = core.pmap(_job, chunks)
     for stats, viol, disag, samples, keys in results:
         chk.evaluations += stats.pop("n")
